@@ -77,10 +77,36 @@ class Gen5(M.Gen):
                                                                        E(Un("default", blk(E(N(12)))))))
         return self.construct_value(depth)
 
+    def valued(self):
+        """a construct whose one contributed value the property names: a guarded block that fails (runtime error or throw) zero, one
+        or two scopes below its own, with operands pending in every abandoned scope, and a handler that is empty, ends in an assignment
+        (both: nil) or ends in a value"""
+        r = self.rng
+        blk = lambda *ss: Code(*ss)
+        thrown = r.random() < 0.4
+        fault = Un("throw", N(5)) if thrown else r.choice([Bin("select", Arr(), N(3)), Bin("+", N(1), S("a"))])
+        depth = r.randint(0, 2)
+        e = fault
+        for lvl in range(depth):
+            pend = N(300 - 100 * lvl)
+            e = Un("call", blk(E(N(2)), E(Arr(pend, e)) if r.random() < 0.5 else E(Bin("+", pend, e))))
+        body = blk(E(Arr(N(1), e)) if r.random() < 0.5 else E(Bin("+", N(100), e)))
+        hk = r.randint(0, 3)
+        if hk == 0: handler, val = blk(), ""           # diag_log prints nil inside an array as nothing
+        elif hk == 1: handler, val = blk(Asg("ga", N(1))), ""
+        elif hk == 2: handler, val = blk(E(N(6))), "6"
+        else: handler, val = blk(E(Arr(N(8), N(9))), E(N(7))), "7"
+        if thrown:
+            return Bin("catch", Un("try", body), handler), val
+        return Bin("except__", body, handler), val
+
     def embedded(self, depth=2):
         r = self.rng
         a, b = r.randint(10, 19), r.randint(20, 29)
         k = r.random()
+        if r.random() < 0.12:
+            inner, val = self.valued()
+            return ("array3v", (a, b, val), Prog(E(Un("diag_log", Arr(N(a), inner, N(b))))))
         inner = self.inner(depth)
         if k < 0.6:
             st = E(Un("diag_log", Arr(N(a), inner, N(b))))
@@ -208,15 +234,17 @@ def main(replay=None):
         marks = [m for m in marks if not m.startswith("VALUE ")][-1:]      # the enclosing expression is printed last
         if d["i_final"].startswith("2:") and d["m_final"].startswith("2:"):
             marks = []      # the program ends in a runtime error (a generated operand faults): the enclosing expression is never printed
-        if kind in ("array3", "array3n") and marks:
+        if kind in ("array3", "array3n", "array3v") and marks:
             first = marks[0]
             parts = split_top(first)
-            a, b = info
+            a, b = info[0], info[1]
             bad = None
             if parts is None or len(parts) != 3:
                 bad = "the enclosing array does not have exactly 3 elements: %s" % first
             elif parts[0] != str(a) or parts[2] != str(b):
                 bad = "pending operands of the enclosing array changed: %s (expected %d .. %d)" % (first, a, b)
+            elif kind == "array3v" and parts[1] != info[2]:
+                bad = "a guarded block that failed contributes the value of its handler's last statement (nil if none): %s, expected %s in the middle" % (first, info[2] or "nil (printed as nothing)")
             elif kind == "array3n":
                 inner = split_top(parts[1])
                 if inner is None or len(inner) != 2 or inner[0] != "1":
